@@ -10,3 +10,10 @@ pub fn u8_from_bool(b: bool) -> (r: u8) ensures r == (if b { 1u8 } else { 0u8 })
 pub use shim_std_int::*;
 pub assume_specification<T, E> [ std::result::Result::<T, E>::unwrap_or ](r: std::result::Result<T, E>, default: T) -> (out: T)
 	ensures out == (match r { Ok(x) => x, Err(_) => default });
+
+pub assume_specification<T, E> [ std::result::Result::<Option<T>, E>::transpose ](r: std::result::Result<Option<T>, E>) -> (out: Option<std::result::Result<T, E>>)
+	ensures out == (match r { Ok(Some(v)) => Some(Ok::<T, E>(v)), Ok(None) => None::<std::result::Result<T, E>>, Err(e) => Some(Err::<T, E>(e)) });
+pub assume_specification<T, E> [ Option::<std::result::Result<T, E>>::transpose ](o: Option<std::result::Result<T, E>>) -> (out: std::result::Result<Option<T>, E>)
+	ensures out == (match o { Some(Ok(v)) => Ok::<Option<T>, E>(Some(v)), Some(Err(e)) => Err::<Option<T>, E>(e), None => Ok::<Option<T>, E>(None) });
+#[verifier::external_body]
+pub fn slice_to_vec_u8(s: &[u8]) -> (r: Vec<u8>) ensures r@ == s@ { unimplemented!() }
